@@ -284,6 +284,75 @@ func installStringModels(m *Machine) {
 	m.Hooks["bytes.HasPrefix"] = b2(func(a, b []byte) Val { return bytes.HasPrefix(a, b) })
 	m.Hooks["bytes.HasSuffix"] = b2(func(a, b []byte) Val { return bytes.HasSuffix(a, b) })
 	m.Hooks["bytes.Contains"] = b2(func(a, b []byte) Val { return bytes.Contains(a, b) })
+	// exact models of further bytes functions
+	b1b := func(f func(a []byte) []byte) HookFn {
+		return func(m *Machine, st *State, call *ssa.CallCommon, args []Val) ([]Val, bool) {
+			x, ok := byteSliceOf(st, args[0])
+			if !ok {
+				return nil, false
+			}
+			return []Val{byteSliceVal(st, f(x))}, true
+		}
+	}
+	b2b := func(f func(a, b []byte) []byte) HookFn {
+		return func(m *Machine, st *State, call *ssa.CallCommon, args []Val) ([]Val, bool) {
+			x, ok1 := byteSliceOf(st, args[0])
+			y, ok2 := byteSliceOf(st, args[1])
+			if !ok1 || !ok2 {
+				return nil, false
+			}
+			return []Val{byteSliceVal(st, f(x, y))}, true
+		}
+	}
+	bsb := func(f func(a []byte, s string) []byte) HookFn {
+		return func(m *Machine, st *State, call *ssa.CallCommon, args []Val) ([]Val, bool) {
+			x, ok1 := byteSliceOf(st, args[0])
+			y, ok2 := args[1].(string)
+			if !ok1 || !ok2 {
+				return nil, false
+			}
+			return []Val{byteSliceVal(st, f(x, y))}, true
+		}
+	}
+	m.Hooks["bytes.TrimSpace"] = b1b(bytes.TrimSpace)
+	m.Hooks["bytes.ToLower"] = b1b(bytes.ToLower)
+	m.Hooks["bytes.ToUpper"] = b1b(bytes.ToUpper)
+	m.Hooks["bytes.TrimSuffix"] = b2b(bytes.TrimSuffix)
+	m.Hooks["bytes.TrimPrefix"] = b2b(bytes.TrimPrefix)
+	m.Hooks["bytes.Trim"] = bsb(bytes.Trim)
+	m.Hooks["bytes.TrimLeft"] = bsb(bytes.TrimLeft)
+	m.Hooks["bytes.TrimRight"] = bsb(bytes.TrimRight)
+	m.Hooks["bytes.Index"] = b2(func(a, b []byte) Val { return int64(bytes.Index(a, b)) })
+	m.Hooks["bytes.LastIndex"] = b2(func(a, b []byte) Val { return int64(bytes.LastIndex(a, b)) })
+	m.Hooks["bytes.Compare"] = b2(func(a, b []byte) Val { return int64(bytes.Compare(a, b)) })
+	m.Hooks["bytes.IndexByte"] = func(m *Machine, st *State, call *ssa.CallCommon, args []Val) ([]Val, bool) {
+		x, ok1 := byteSliceOf(st, args[0])
+		c, ok2 := args[1].(int64)
+		if !ok1 || !ok2 {
+			return nil, false
+		}
+		return []Val{int64(bytes.IndexByte(x, byte(c)))}, true
+	}
+	m.Hooks["bytes.LastIndexByte"] = func(m *Machine, st *State, call *ssa.CallCommon, args []Val) ([]Val, bool) {
+		x, ok1 := byteSliceOf(st, args[0])
+		c, ok2 := args[1].(int64)
+		if !ok1 || !ok2 {
+			return nil, false
+		}
+		return []Val{int64(bytes.LastIndexByte(x, byte(c)))}, true
+	}
+	m.Hooks["bytes.Fields"] = func(m *Machine, st *State, call *ssa.CallCommon, args []Val) ([]Val, bool) {
+		x, ok := byteSliceOf(st, args[0])
+		if !ok {
+			return nil, false
+		}
+		arr := &ArrayV{}
+		for _, f := range bytes.Fields(x) {
+			arr.E = append(arr.E, byteSliceVal(st, f))
+		}
+		id := st.alloc(types.NewArray(types.NewSlice(types.Typ[types.Uint8]), int64(len(arr.E))), arr)
+		return []Val{SliceV{Obj: id, Len_: len(arr.E), Cap: len(arr.E)}}, true
+	}
 	m.Hooks["encoding/hex.EncodeToString"] = func(m *Machine, st *State, call *ssa.CallCommon, args []Val) ([]Val, bool) {
 		if o, ok := args[0].(OpaqueV); ok {
 			return []Val{OpaqueV{"hex(" + o.Name + ")"}}, true
